@@ -57,4 +57,17 @@ WalkSimple == phase = "walk" =>
    /\ \A k \in 1..(Len(path) - 1) : Adjacent(path[k], path[k+1])
 \* C01: the result is a spanning tree of the whole grid
 DoneSpanning == phase = "done" => IsSpanningTreeS(R, C, slots) /\ visited = Cells
+
+\* ---------------------------------------------------------------- progress
+\* A random walk may wander for ever, so gen_wilson has no bound on its number of steps and  <>(phase = "done")  is FALSE even
+\* under weak fairness (WalksForEver below must be violated... by a lasso that keeps erasing its own loops).  What holds:
+\*  - the generator is never stuck before it is done (NoTrap), the tree only grows (TreeGrows), and between two commits the
+\*    number of unvisited cells strictly decreases (CommitShrinks): at most R*C - 1 commits;
+\*  - termination with probability one = the absorption probabilities of the chain add up to one; C19 computes them exactly
+\*    (Uniform.tla: every spanning tree has probability 1/N, hence total mass 1 on "done").
+NoTrap == phase # "done" => ENABLED Next
+TreeGrows == [][visited \subseteq visited' /\ slots \subseteq slots']_wvars
+CommitShrinks == [][visited' # visited => Cardinality(Cells \ visited') < Cardinality(Cells \ visited)]_wvars
+FairSpec == Spec /\ WF_wvars(Next)
+AlwaysReturns == <>(phase = "done")          \* NOT a theorem: the cfg GenWilson_walksforever expects its violation
 ============================================================================
